@@ -167,7 +167,39 @@ func genFields(r *v.Rand, mode string, cffFont bool) *fields {
 	return s
 }
 
+// glyfSizes: encoded glyf table sizes around the two limits of the short
+// loca format (offset/2 in 16 bits): 65535 and 131070 bytes.
+func glyfSizes(tier string) []int {
+	sizes := []int{65534, 65536, 65538, 131070, 131072, 131074, 65532, 131068, 131076, 4096, 262144}
+	if tier == "thorough" {
+		for d := -40; d <= 40; d += 2 {
+			sizes = append(sizes, 65536+d, 131072+d)
+		}
+		sizes = append(sizes, 196608, 262142, 262146, 524288, 1<<20)
+	}
+	return sizes
+}
+
+func genSizedGlyf(run *v.Run, r *v.Rand, tier string) {
+	reps := v.Count(tier, 1, 3)
+	for _, size := range glyfSizes(tier) {
+		for k := 0; k < reps; k++ {
+			t := tpl{Name: "glyfsize", Seed: uint64(size), CMap: v.Pick(r, []string{"f4", "f12", "nil"}), Layout: v.Pick(r, []string{"-", "-", "s"})}
+			mode := v.Pick(r, []string{"plain", "canonical", "ascii"})
+			c := &cycleCase{t, genFields(r, mode, false)}
+			line, impl, fails, labels, err := runCycle(c)
+			if err != nil {
+				run.Hist["a:template-error"]++
+				continue
+			}
+			labels = append(labels, "a:mode="+mode, "a:glyf-table-size-boundary")
+			record(run, line, impl, fails, true, labels)
+		}
+	}
+}
+
 func genCycles(run *v.Run, r *v.Rand, tier string) {
+	genSizedGlyf(run, r.Fork("glyfsize"), tier)
 	n := v.Count(tier, 700, 14000)
 	names := []string{"cffmini", "cffmini", "cffmini", "cffcid", "cffcid", "glyfmini", "glyfmini", "glyfmini", "debug", "go"}
 	cmaps := []string{"own", "nil", "empty", "f4", "f4", "f4lig", "f4lig", "f12"}
